@@ -311,3 +311,62 @@ func verifHarness_C04_long_queue_one_writable_edge() {
 	verifAssertD(len(f.wire) == 11 && verifEqBytes(f.wire, payload), "accepted-bytes-delivered", name+"/long-queue")
 	verifAssert(false, "witness")
 }
+
+// CloseAfterFlush (what the HTTP server uses to end a connection after its
+// last answer): everything accepted before it is still delivered, in order,
+// while the peer makes room byte by byte; nothing written after it reaches the
+// wire; the connection is closed exactly once, when the backlog is out — or at
+// once when there is none.
+func verifHarness_C04_close_after_flush() {
+	verifBound("payload_bytes", 4)
+	verifBound("preemptions", 1)
+	mode := verifChoose("mode", 3)
+	vkReset()
+	vk.regime = vkBuffered
+	MaxOpenFiles = 32
+	g := NewEngine(verifEngineConf(mode))
+	closes := 0
+	g.OnClose(func(c *Conn, err error) { closes++ })
+	verifSched(true, 1)
+	if err := g.Start(); err != nil {
+		verifFail("engine-start-failed", "")
+		return
+	}
+	space := []int{1, 2, 100}[verifChoose("space", 3)]
+	f := vk.newFd(vkSockStream)
+	f.sendSpace = space
+	verifGo(func() {
+		for i := 0; i < 8; i++ {
+			verifBlockUntil(func() bool { return f.sendSpace < space })
+			f.peerDrain(space - f.sendSpace)
+		}
+	})
+	conn := &Conn{fd: f.fd, typ: ConnTypeTCP}
+	if err := g.pollers[0].addConn(conn); err != nil {
+		verifFail("addconn-failed", "")
+		return
+	}
+	name := verifModeName(mode)
+	payload := verifBytes("payload", 4)
+	var n int
+	var err error
+	if verifChoose("entry", 2) == 0 {
+		n, err = conn.Write(payload)
+	} else {
+		n, err = conn.Writev([][]byte{payload[:1], payload[1:]})
+	}
+	verifAssertD(err == nil && n == 4, "write-accepted", name+"/close-after-flush")
+	_ = conn.CloseAfterFlush()
+	if verifChoose("late_write", 2) == 1 {
+		_, err = conn.Write([]byte{0xEE})
+		verifAssertD(err != nil, "write-after-close-refused", name+"/close-after-flush")
+	}
+	verifJoin()
+	verifAssertD(len(f.wire) == 4 && verifEqBytes(f.wire, payload), "accepted-bytes-delivered", name+"/close-after-flush")
+	verifAssertD(conn.closed && !f.open && f.closes == 1, "closed-when-backlog-is-out", name+"/close-after-flush")
+	verifAssertD(closes == 1, "close-reported-once", name+"/close-after-flush")
+	if space < 4 {
+		verifReach("backlog-at-close-request")
+	}
+	verifAssert(false, "witness")
+}
